@@ -91,7 +91,9 @@ def gen_case(rng, backend):
             rules.append({"blocking_rule": gen_rule(rng), "salting_partitions": rng.choice([2, 3, 5])})
         else:
             rules.append(gen_rule(rng))
-    return {"link_type": lt, "names": names, "tables": tables, "rules": rules, "backend": backend}
+    # the same link job may be presented as ONE pre-concatenated table with a source_dataset column
+    one_table = ntab > 1 and rng.random() < 0.2
+    return {"link_type": lt, "names": names, "tables": tables, "rules": rules, "backend": backend, "one_table": one_table}
 
 
 def rule_sql(r):
@@ -157,6 +159,8 @@ def run_impl(case, entry="predict"):
         if case["backend"] == "sqlite":
             d = d.drop(columns=["arr", "arr2"])
         tabs.append(d)
+    if case.get("one_table") and len(tabs) > 1:
+        tabs = [pd.concat([d.assign(source_dataset=nm) for d, nm in zip(tabs, case["names"])], ignore_index=True)]
     s = SettingsCreator(link_type=case["link_type"], comparisons=[cl.ExactMatch("a")],
                         blocking_rules_to_generate_predictions=case["rules"],
                         retain_intermediate_calculation_columns=False)
@@ -259,6 +263,7 @@ def features_of(case):
             kinds.append("exploding")
         else:
             kinds.append("plain")
+    f["one_table"] = bool(case.get("one_table"))
     f["has_salted"] = "salted" in kinds
     f["has_exploding"] = "exploding" in kinds
     # a plain/salted rule mentioning the exploded column listed before an exploding rule (7.13)
@@ -339,6 +344,7 @@ def correspondence(ctx: Ctx, extra_cases=None):
             ctx.hist("n_rules", len(case["rules"]))
             ctx.hist("link_type", case["link_type"])
             ctx.hist("entry", entry)
+            ctx.hist("one_table_formulation", bool(case.get("one_table")))
             for r in case["rules"]:
                 ctx.hist("rule_kind", "salted" if isinstance(r, dict) and "salting_partitions" in r else "exploding" if isinstance(r, dict) else "plain")
     bad, errs = ctx.eval_cases("C01_x", HEADER, terms, "run_case", shard=80)
